@@ -42,6 +42,77 @@ var specC04 = reg(&checkSpec{
 	},
 })
 
+var specC05v = reg(&checkSpec{
+	prop: "C05v", profiles: []string{"elect", "elect", "crash", "transfer"},
+	deciding: []string{"one-vote", "vote-durable", "term-monotonic"},
+	rule:     "vsim part of C05",
+	nontrivial: func(c *cluster) bool { return c.led.elections >= 2 && c.stats.has("wire-voteResp-success") },
+})
+
+var specC07 = reg(&checkSpec{
+	prop: "C07", profiles: []string{"client", "client", "transfer", "member"},
+	deciding: []string{"client-semantics", "exactly-once"},
+	rule:     "non-trivial: >=1 client task failed (definitively or ambiguously) and >=2 leaders were elected, with >=3 successful updates; distinct by trace hash",
+	nontrivial: func(c *cluster) bool {
+		failed := c.stats.has("upd-lost") || c.stats.has("upd-notleader") || c.stats.has("upd-inprogress") || c.stats.has("upd-closed")
+		return failed && c.led.leadersElected >= 2 && c.stats.classes["upd-ok"] >= 3
+	},
+})
+
+var specC08 = reg(&checkSpec{
+	prop: "C08", profiles: []string{"member", "member", "transfer"},
+	deciding: []string{"config-safety", "leader-unique", "leader-complete", "commit-stable"},
+	rule:     "non-trivial: >=2 configuration entries appended by leaders and >=2 leaders elected; distinct by trace hash",
+	nontrivial: func(c *cluster) bool { return c.stats.classes["leader-config-change"] >= 2 && c.led.leadersElected >= 2 },
+})
+
+var specC11 = reg(&checkSpec{
+	prop: "C11", profiles: []string{"member", "member", "transfer"},
+	deciding: []string{"nonvoter-authority"},
+	rule:     "non-trivial: a node that is a non-voter (or not a member) in its own latest configuration had its election timer fire or received a timeout-now request, or a promotion was appended; distinct by trace hash",
+	nontrivial: func(c *cluster) bool {
+		return c.stats.has("nonvoter-timeout") || c.stats.has("wire-timeoutNowResp-nonVoter") || c.stats.has("promotion")
+	},
+})
+
+var specC15 = reg(&checkSpec{
+	prop: "C15", profiles: []string{"chaos", "chaos", "snap", "member", "transfer"},
+	deciding: []string{"no-crash", "serve", "shutdown", "tasks-complete", "log-read"},
+	rule:     "non-trivial: the case combined >=3 of {snapshot, compaction, snapshot install, transfer, membership change, partition, restart}; distinct by trace hash",
+	nontrivial: func(c *cluster) bool {
+		k := 0
+		for _, cls := range []string{"snap-ok", "compaction", "wire-install-ok", "a-xfer", "leader-config-change", "a-isolate", "a-restart"} {
+			if c.stats.has(cls) {
+				k++
+			}
+		}
+		return k >= 3
+	},
+})
+
+var specC16 = reg(&checkSpec{
+	prop: "C16", profiles: []string{"transfer"},
+	deciding: []string{"transfer", "leader-unique"},
+	rule:     "non-trivial: a transfer was accepted (timeout-now written or transfer task pending) while updates, a membership action or a competing election were in flight, or its reply/vote traffic was withheld; distinct by trace hash",
+	nontrivial: func(c *cluster) bool { return c.stats.has("wire-timeoutNow") && (c.stats.has("xfer-err") || c.stats.has("xfer-ok")) },
+})
+
+var specC19 = reg(&checkSpec{
+	prop: "C19", profiles: []string{"info", "info", "snap", "member"},
+	deciding: []string{"info-order", "info-monotonic", "info-config"},
+	rule:     "non-trivial: a node that answered >=2 status reports processed a snapshot installation, a truncation or a configuration revert; distinct by trace hash",
+	nontrivial: func(c *cluster) bool {
+		return c.stats.classes["info"] >= 2 && (c.stats.has("wire-install-ok") || c.stats.has("truncation") || c.stats.has("config-reverted"))
+	},
+})
+
+func TestVerif_C05v(t *testing.T) { corpusReplay(t, specC05v); runSpec(t, specC05v) }
+func TestVerif_C07(t *testing.T)  { corpusReplay(t, specC07); runSpec(t, specC07) }
+func TestVerif_C08(t *testing.T)  { corpusReplay(t, specC08); runSpec(t, specC08) }
+func TestVerif_C11(t *testing.T)  { corpusReplay(t, specC11); runSpec(t, specC11) }
+func TestVerif_C15(t *testing.T)  { corpusReplay(t, specC15); runSpec(t, specC15) }
+func TestVerif_C16(t *testing.T)  { corpusReplay(t, specC16); runSpec(t, specC16) }
+func TestVerif_C19(t *testing.T)  { corpusReplay(t, specC19); runSpec(t, specC19) }
 func TestVerif_C01(t *testing.T) { corpusReplay(t, specC01); runSpec(t, specC01) }
 func TestVerif_C02(t *testing.T) { corpusReplay(t, specC02); runSpec(t, specC02) }
 func TestVerif_C03(t *testing.T) { corpusReplay(t, specC03); runSpec(t, specC03) }
